@@ -125,6 +125,12 @@ def gen_live(rng, flavour):
             for n in range(start, start + rng.choice([3, 4, 5])):
                 faults[str(n)] = {"transport": kind}
     sc["faults"] = faults
+    if side.random() < 0.4:
+        sc["split_ocm"] = True  # the order stream reports the bets of one request in separate messages
+    if side.random() < 0.35:
+        # nothing orders the pool thread and the submitting thread: in these sessions a submitted request may run - up to
+        # the processing of its reply - before submit() returns to the main loop
+        sc["preempt_pct"] = side.choice([25, 60, 100])
     _tz(sc)
     return sc
 
@@ -309,3 +315,39 @@ def gen_live_betdaq(rng):
         "exchange_events": [{"type": "fill", "bet": rng.randrange(5), "size": rng.choice([0.5, 2.0, 50.0])} for _ in range(rng.choice([0, 1, 3]))],
         "controls": ([{"level": "trading", "mod": 2, "rem": rng.randrange(2), "kinds": rng.sample(["PLACE", "CANCEL", "UPDATE"], 2)}] if rng.random() < 0.4 else []),
     }
+
+
+def gen_c12_async_retry(rng):
+    """Directed: an asynchronous PLACE package of 2-3 bets whose attempts fail in transport AFTER the exchange took the
+    request, with the order stream reporting the bets one message at a time - so the stream acknowledges part of the
+    package between two attempts - and enough further faults to use up the retry budget (and one more)."""
+    knobs = {"n_updates": (7, 9), "p_removal": 0.0, "p_suspend": 0.0, "p_inplay": 0.0, "p_close": 0.0, "n_runners": (2, 3), "spacing": "normal"}
+    m = marketgen.gen_market(rng, 0, knobs)
+    n = rng.choice([2, 2, 3])
+    places = []
+    for k in range(n):
+        side = "BACK" if k % 2 == 0 else "LAY"
+        places.append({"op": "place", "sel": m["runners"][k % len(m["runners"])], "side": side, "type": "LIMIT", "price": 900.0 if side == "BACK" else 1.02, "size": r2(rng.choice([2.0, 3.0, 4.5])), "persistence": "LAPSE"})
+    m["updates"][1]["acts"] = {"L0": [{"op": "txn", "acts": places}]}
+    faults = {}
+    for a in range(rng.choice([1, 2, 4, 5, 6, 7])):
+        faults[str(1 + a)] = {"transport": rng.choice(["conn_after", "http503", "badjson", "aping", "conn_after", "conn_before"])}
+    sc = {
+        "world": "B",
+        "cfg": {"async": rng.random() < 0.8, "max_workers": rng.choice([32, 1])},
+        "clients": [{"limit": 5000}],
+        "markets": [m],
+        "strategies": [{"name": "L0", "markets": [0], "client": 0}],
+        "tape": [rng.randrange(1_000_000) for _ in range(90)],
+        "duplicates": rng.random() < 0.3,
+        "idle_ticks": False,
+        "image_with_complete": True,
+        "max_steps": 600,
+        "faults": faults,
+        "exchange_events": [],
+        "split_ocm": True,
+        "directed": "async-place-retries-with-partial-acknowledgement",
+    }
+    if rng.random() < 0.3:
+        sc["preempt_pct"] = 25
+    return sc
